@@ -14,7 +14,8 @@ import (
 )
 
 var vrfEntries = map[string]func(){
-	"VrfC07Trust": VrfC07Trust,
+	"VrfC07Trust":     VrfC07Trust,
+	"VrfC07Validator": VrfC07Validator,
 }
 
 // minimal libp2p host: only what Trust()/IsTrustedPeer() touch
